@@ -533,6 +533,16 @@ func runC19(c *fw.Ctx) {
 		stepMust("Insert(a value of its own type)", func() at.List { return l.Insert(0, listFixture(depth, 2).outer) })
 		stepMust("Replace(a value of its own type)", func() at.List { return l.Replace(0, listFixture(depth, 3).outer) })
 		stepMust("SetTF(a value of its own type)", func() at.List { return l.SetTF("#1", listFixture(depth, 4).outer) })
+		step("Delete(an index twice)", func() at.List { return l.Add(1, 2, 3).Delete(1, 1) })
+		step("Delete(indexes in descending order, one twice)", func() at.List { return l.Add(1, 2, 3, 4).Delete(2, 0, 2) })
+		step("Delete(all indexes)", func() at.List {
+			idx := make([]int, l.Count())
+			for k := range idx {
+				idx[k] = len(idx) - 1 - k
+			}
+			return l.Delete(idx...)
+		})
+		step("Add(the same value twice)", func() at.List { return l.Add("twice", "twice") })
 		step("Insert(at end)", func() at.List { return l.Insert(l.Count(), 1) })
 		step("Insert(at 0)", func() at.List { return l.Insert(0, 1) })
 		step("SetTF(leaf replace)", func() at.List { return l.SetTF("#0", 5) })
@@ -629,6 +639,9 @@ func runC19(c *fw.Ctx) {
 		ostep("SetTF(replace wrong kind)", func() at.Object { return o.SetTF(".a#0", 1) })
 		ostep("UnsetTF(nested)", func() at.Object { return o.UnsetTF(".o.p.q") })
 		ostep("Unset(missing)", func() at.Object { return o.Unset("nope") })
+		ostep("Unset(a key twice)", func() at.Object { return o.Set("tw", 1).Unset("tw", "tw") })
+		ostep("Unset(present and missing)", func() at.Object { return o.Set("pm", 1).Unset("nope", "pm", "nope") })
+		ostep("Set(a key twice)", func() at.Object { return o.Set("tw", 1, "tw", 2) })
 		ostep("Clear.Set", func() at.Object { return o.Clear().Set("k", 2) })
 		ostep("Clear.ForEach", func() at.Object { return o.Clear().ForEach(func(string, any) {}) })
 		ostep("ForEachAsync(empty)", func() at.Object { return o.ForEachAsync(func(string, any) {}) })
